@@ -32,6 +32,13 @@ def install():
 
 def guarded(fn, cpu_seconds=5.0):
     """run fn() under the CPU watchdog; -> ('ok', value) | ('hang', None) | ('exc', exception)"""
+    import threading
+    if threading.current_thread() is not threading.main_thread():
+        # signals reach the main thread only: on the 'thread' axis the per-task limit of the pool is the watchdog
+        try:
+            return 'ok', fn()
+        except Exception as ex:
+            return 'exc', ex
     install()
     signal.setitimer(signal.ITIMER_VIRTUAL, cpu_seconds)
     try:
